@@ -43,6 +43,14 @@ pub enum Scn {
         /// flag on any packet): its payload still counts
         #[serde(default)]
         flag_last: Vec<usize>,
+        /// sessions that end with a final FDT packet carrying the close-session flag AND damaged XML (the push fails):
+        /// the session is closed all the same
+        #[serde(default)]
+        damaged_close: Vec<usize>,
+        /// the wall clock handed to push / cleanup stands still (one timestamp for the whole capture) while the
+        /// monotonic clock advances: session expiry is monotonic
+        #[serde(default)]
+        wall_frozen: bool,
     },
     /// every listed sequence of filter operations, each prefix probed with packets of every (endpoint, TSI)
     Filter { seqs: Vec<Vec<FilterOp>> },
@@ -165,6 +173,8 @@ pub fn gen(idx: u64, rng: &mut Rng, tier: Tier) -> Scn {
         recv,
         jitter_us: if rng.chance(0.5) { *rng.pick(&[1u64, 100, 1000]) } else { 0 },
         cleanup_every: *rng.pick(&[0u32, 1, 3, 10]),
+        damaged_close: (0..n).filter(|s| !closes.iter().any(|(c, _)| c == s) && !flag_last.contains(s)).filter(|_| rng.chance(0.3)).collect(),
+        wall_frozen: rng.chance(0.2),
         closes,
         flag_last,
     }
@@ -222,7 +232,7 @@ fn check_listener(ctx: &Ctx, events: &[SessEvent], what: &str, dropped: bool) {
     }
 }
 
-fn run_demux(sessions: &[SenderScn], recv: &RecvSpec, jitter_us: u64, cleanup_every: u32, closes: &[(usize, u32)], flag_last: &[usize], ctx: &Ctx, scratch: &Path) {
+fn run_demux(sessions: &[SenderScn], recv: &RecvSpec, jitter_us: u64, cleanup_every: u32, closes: &[(usize, u32)], flag_last: &[usize], damaged_close: &[usize], wall_frozen: bool, ctx: &Ctx, scratch: &Path) {
     let mut sess = Vec::new();
     for s in sessions {
         match run_sender(s, ctx, scratch) {
@@ -243,6 +253,15 @@ fn run_demux(sessions: &[SenderScn], recv: &RecvSpec, jitter_us: u64, cleanup_ev
             }
             v.push((p.t_us, p.bytes.clone()));
         }
+        if damaged_close.contains(&i) {
+            let t_end = v.last().map(|x| x.0).unwrap_or(0);
+            for mut b in wire::packetise_fdt(b"<?xml version=\"1.0\"?><FDT-Instance Expires=\"4100000000\"><File TOI=", sessions[i].spec.tsi, 900, 1400, None, None) {
+                if b.len() > 1 {
+                    b[1] |= 0x02;
+                }
+                v.push((t_end, b));
+            }
+        }
         if flag_last.contains(&i) {
             if let Some(last) = v.last_mut() {
                 if last.1.len() > 1 {
@@ -257,6 +276,9 @@ fn run_demux(sessions: &[SenderScn], recv: &RecvSpec, jitter_us: u64, cleanup_ev
     let run = |which: &[usize], order: &[(usize, usize)], label: &str| -> (std::rc::Rc<Monitor>, Vec<SessEvent>) {
         let monitor = Monitor::new(ctx, recv.md5_check, WriterFaults::default(), label);
         let mut rr = RecvRun::new(recv, ctx, monitor.clone(), false, label);
+        if wall_frozen {
+            rr.freeze_wall = Some(t0_us());
+        }
         flute::verif::clock::set_jitter(Duration::from_micros(jitter_us));
         let mut last_t = 0u64;
         // listener churn (merged run): further listeners come and go between pushes, the OLDEST extra one is
@@ -292,7 +314,21 @@ fn run_demux(sessions: &[SenderScn], recv: &RecvSpec, jitter_us: u64, cleanup_ev
             last_t = last_t.max(*t);
             if which.contains(si) {
                 calls.push((ctx.borrow().next_seq(), *t, Some(*si)));
+                let was_open = {
+                    let ev = rr.sess_events.borrow();
+                    ev.iter().rev().find(|e| e.key.endpoint == eps[*si] && e.key.tsi == sessions[*si].spec.tsi).map(|e| e.open).unwrap_or(false)
+                };
+                let n_ev = rr.sess_events.borrow().len();
                 rr.push(&eps[*si], b, *t);
+                // a packet carrying the close-session flag ends its session in that very call - whether the packet
+                // itself is accepted or rejected: exactly one close per session end
+                let a_flag = b.len() > 1 && b[1] & 0x02 != 0;
+                if a_flag && was_open {
+                    let closed = rr.sess_events.borrow()[n_ev..].iter().any(|e| !e.open && e.key.endpoint == eps[*si] && e.key.tsi == sessions[*si].spec.tsi);
+                    if !closed {
+                        violate(ctx, "C18/close-session-packet-does-not-close", "-", format!("{}: a packet of session {} (tsi {}) with the close-session flag was pushed while the session was open, no close was reported in that call", label, si, sessions[*si].spec.tsi));
+                    }
+                }
             }
             if cleanup_every > 0 && (n as u32 + 1) % cleanup_every == 0 {
                 calls.push((ctx.borrow().next_seq(), last_t, None));
@@ -610,7 +646,7 @@ fn run_filter(seqs: &[Vec<FilterOp>], ctx: &Ctx) {
 
 pub fn run(scn: &Scn, ctx: &Ctx, scratch: &Path) {
     match scn {
-        Scn::Demux { sessions, recv, jitter_us, cleanup_every, closes, flag_last } => run_demux(sessions, recv, *jitter_us, *cleanup_every, closes, flag_last, ctx, scratch),
+        Scn::Demux { sessions, recv, jitter_us, cleanup_every, closes, flag_last, damaged_close, wall_frozen } => run_demux(sessions, recv, *jitter_us, *cleanup_every, closes, flag_last, damaged_close, *wall_frozen, ctx, scratch),
         Scn::Filter { seqs } => run_filter(seqs, ctx),
     }
 }
@@ -667,32 +703,32 @@ impl Prop for C18 {
                     }
                 }
             }
-            Scn::Demux { sessions, recv, jitter_us, cleanup_every, closes, flag_last } => {
+            Scn::Demux { sessions, recv, jitter_us, cleanup_every, closes, flag_last, damaged_close, wall_frozen } => {
                 if sessions.len() > 1 {
                     for i in 0..sessions.len() {
                         let mut v = sessions.clone();
                         v.remove(i);
                         let c: Vec<(usize, u32)> = closes.iter().filter(|(s, _)| *s != i).map(|(s, k)| (if *s > i { s - 1 } else { *s }, *k)).collect();
                         let fl: Vec<usize> = flag_last.iter().filter(|s| **s != i).map(|s| if *s > i { s - 1 } else { *s }).collect();
-                        out.push(Scn::Demux { sessions: v, recv: recv.clone(), jitter_us: *jitter_us, cleanup_every: *cleanup_every, closes: c, flag_last: fl });
+                        out.push(Scn::Demux { sessions: v, recv: recv.clone(), jitter_us: *jitter_us, cleanup_every: *cleanup_every, closes: c, flag_last: fl, damaged_close: damaged_close.iter().filter(|s| **s != i).map(|s| if *s > i { s - 1 } else { *s }).collect(), wall_frozen: *wall_frozen });
                     }
                 }
                 for i in 0..closes.len() {
                     let mut c = closes.clone();
                     c.remove(i);
-                    out.push(Scn::Demux { sessions: sessions.clone(), recv: recv.clone(), jitter_us: *jitter_us, cleanup_every: *cleanup_every, closes: c, flag_last: flag_last.clone() });
+                    out.push(Scn::Demux { sessions: sessions.clone(), recv: recv.clone(), jitter_us: *jitter_us, cleanup_every: *cleanup_every, closes: c, flag_last: flag_last.clone(), damaged_close: damaged_close.clone(), wall_frozen: *wall_frozen });
                 }
                 if *jitter_us != 0 {
-                    out.push(Scn::Demux { sessions: sessions.clone(), recv: recv.clone(), jitter_us: 0, cleanup_every: *cleanup_every, closes: closes.clone(), flag_last: flag_last.clone() });
+                    out.push(Scn::Demux { sessions: sessions.clone(), recv: recv.clone(), jitter_us: 0, cleanup_every: *cleanup_every, closes: closes.clone(), flag_last: flag_last.clone(), damaged_close: damaged_close.clone(), wall_frozen: *wall_frozen });
                 }
                 if *cleanup_every > 1 {
-                    out.push(Scn::Demux { sessions: sessions.clone(), recv: recv.clone(), jitter_us: *jitter_us, cleanup_every: 1, closes: closes.clone(), flag_last: flag_last.clone() });
+                    out.push(Scn::Demux { sessions: sessions.clone(), recv: recv.clone(), jitter_us: *jitter_us, cleanup_every: 1, closes: closes.clone(), flag_last: flag_last.clone(), damaged_close: damaged_close.clone(), wall_frozen: *wall_frozen });
                 }
                 for (i, s) in sessions.iter().enumerate() {
                     for c in shrink_sender_scn(s).into_iter().take(12) {
                         let mut v = sessions.clone();
                         v[i] = c;
-                        out.push(Scn::Demux { sessions: v, recv: recv.clone(), jitter_us: *jitter_us, cleanup_every: *cleanup_every, closes: closes.clone(), flag_last: flag_last.clone() });
+                        out.push(Scn::Demux { sessions: v, recv: recv.clone(), jitter_us: *jitter_us, cleanup_every: *cleanup_every, closes: closes.clone(), flag_last: flag_last.clone(), damaged_close: damaged_close.clone(), wall_frozen: *wall_frozen });
                     }
                 }
             }
